@@ -44,7 +44,7 @@ manifest = {
     },
     "engines": [
         {"name": "mirfacts", "path": "driver/", "serves_properties": [c["property_id"] for c in checks if c["property_id"] != "C18"],
-         "kind_free_text": "rustc_private driver dumping pre-borrowck MIR, types, ADTs and impl tables of /repo (std / alloc / core builds) as JSON facts"},
+         "kind_free_text": "rustc_private driver dumping pre-borrowck MIR, types, ADTs and impl tables of /repo (std / alloc / core feature sets, each in the dev and in the release profile) as JSON facts"},
         {"name": "rules", "path": "engine/", "serves_properties": [c["property_id"] for c in checks],
          "kind_free_text": "Python rule engine over the MIR facts: CFG reachability with avoid-sets (dominance, must-pass-through, must-reach), value-origin terms, tuple-arm path sensitivity, maybe-init dataflow, path summaries of primitives, who-may-call audits"},
         {"name": "witness", "path": "witness/", "serves_properties": ["C18"],
@@ -52,7 +52,7 @@ manifest = {
     ],
     "checks": checks,
     "not_applicable": na,
-    "notes": "Static analysis only. Two genuine defects were repaired in /repo with unguarded fix: commits (7bd12ae merge of zero streams, fbb068f take(0)); see known_findings.json. Exit codes: 0 pass, 1 VIOLATION, 2 inconclusive (build failure / floor not met / anchor missing).",
+    "notes": "Static analysis only. Two genuine defects were repaired in /repo with unguarded fix: commits (7bd12ae merge of zero streams, fbb068f take(0)); see known_findings.json. Every rule runs on the dev-profile and on the release-profile MIR (code under cfg(debug_assertions) differs between them and the pinned tests only build dev). Exit codes: 0 pass, 1 VIOLATION, 2 inconclusive (build failure / floor not met / anchor missing / protocol steps inside a closure).",
 }
 with open(os.path.join(HERE, "MANIFEST.json"), "w") as fh:
     json.dump(manifest, fh, indent=1)
